@@ -1653,7 +1653,7 @@ func TestVerifC12(t *testing.T) {
 			}
 			continue
 		}
-		if c%8000 == 4000 {
+		if c%8000 == 2000 {
 			r.hostileRegexCase(36 + rng.Intn(8))
 			r.stats["hostile-regex-case"]++
 			continue
